@@ -99,7 +99,10 @@ def driver_spec(draw, name="DEV", max_depth=3, max_groups=3, kinds=KINDS, max_ve
         chain.append({"groups": groups})
     if not any(l["groups"] for l in chain):
         chain[0]["groups"].append(draw(group_spec(gidx, "ga", kinds, max_vectors)))
-    return {"name": name, "chain": chain}
+    spec = {"name": name, "chain": chain}
+    if depth >= 2 and draw(st.booleans()):
+        spec["deploy_bases"] = draw(st.lists(st.integers(0, depth - 2), min_size=1, max_size=2, unique=True))
+    return spec
 
 
 def deployment(max_devices=3, **kw):
@@ -154,12 +157,13 @@ def _group(g):
 _counter = [0]
 
 
-def build_class(spec, extra_leaf_attrs=None, class_level_name=True):
-    """Real Driver classes for a spec; returns the leaf class. Fresh definitions every call."""
+def build_classes(spec, extra_leaf_attrs=None, class_level_name=True):
+    """Real Driver classes for a spec, one per level of the chain (base-most first). Fresh definitions every call."""
     from indi.device import Driver
 
     base = Driver
     n = len(spec["chain"])
+    classes = []
     for i, level in enumerate(spec["chain"]):
         dct = {g["attr"]: _group(g) for g in level["groups"]}
         if i == n - 1:
@@ -169,7 +173,12 @@ def build_class(spec, extra_leaf_attrs=None, class_level_name=True):
                 dct.update(extra_leaf_attrs(dct) if callable(extra_leaf_attrs) else extra_leaf_attrs)
         _counter[0] += 1
         base = type(f"Gen{_counter[0]}L{i}", (base,), dct)
-    return base
+        classes.append(base)
+    return classes
+
+
+def build_class(spec, **kw):
+    return build_classes(spec, **kw)[-1]
 
 
 def build(spec, router=None, **kw):
@@ -277,9 +286,24 @@ class Deployment:
     """Drivers built from specs on one router, plus the model of the enable flags."""
 
     def __init__(self, specs, router):
-        self.specs = specs
         self.router = router
-        self.drivers = [build(s, router=router) for s in specs]
+        # A spec with "deploy_bases": [k, ...] also deploys instances of its intermediate classes (level k of the
+        # chain) as devices of their own, created BEFORE the leaf instance - a base driver and a driver derived
+        # from it running side by side, sharing definitions. They are appended to the list of devices.
+        specs = list(specs)
+        extra_specs, extra_drivers, leaf_drivers = [], [], []
+        for s in specs:
+            classes = build_classes(s)
+            for k in sorted({k % len(classes) for k in s.get("deploy_bases", [])}):
+                if k >= len(classes) - 1 or not any(level["groups"] for level in s["chain"][: k + 1]):
+                    continue
+                bname = f"{s['name']}B{k}"
+                extra_specs.append({"name": bname, "chain": s["chain"][: k + 1]})
+                extra_drivers.append(classes[k](name=bname, router=router))
+            leaf_drivers.append(classes[-1](router=router))
+        self.specs = specs + extra_specs
+        self.drivers = leaf_drivers + extra_drivers
+        specs = self.specs
         for s, drv in zip(specs, self.drivers):
             for attr, g in effective_groups(s).items():
                 grp = getattr(drv, attr, None)
